@@ -22,7 +22,10 @@ func chunks(n int, f func(lo int)) {
 	})
 }
 
-// Rounding decides Decompose, UseHint and MakeHint of one parameter set on their whole domains.
+// Rounding decides Decompose, UseHint and MakeHint of one parameter set on their whole domains,
+// through the exported polynomial-level entry points (the ones Sign and Verify call). The unexported
+// scalar helpers have their own units (ScalarDecompose, ScalarUseHint, ScalarMakeHint) in files of
+// their own, so that renaming one of them costs only that helper's sweep.
 func Rounding(t *testing.T, im *Impl) {
 	r := verifmc.Start(t, "C04", "rounding-"+im.Name)
 	defer r.Finish()
@@ -30,8 +33,8 @@ func Rounding(t *testing.T, im *Impl) {
 	g2 := p.Gamma2
 	m := (Q - 1) / (2 * g2)
 	zmax := 2*g2 - p.Beta() - 2
-	r.Rule(fmt.Sprintf("decompose / PolyDecompose on every r in [0,q); PolyUseHint and scalar useHint on every (r,h) in [0,q) x {0,1} (hint polynomials all-0, all-1 and alternating); "+
-		"makeHint / PolyMakeHint on every (r1, z0) with r1 in [0,%d) and |z0| <= 2*gamma2-beta-2 = %d, which is every pair the signing loop can form (z0 = LowBits(w-cs2)+ct0); "+
+	r.Rule(fmt.Sprintf("PolyDecompose on every r in [0,q); PolyUseHint on every (r,h) in [0,q) x {0,1} (hint polynomials all-0, all-1 and alternating); "+
+		"PolyMakeHint on every (r1, z0) with r1 in [0,%d) and |z0| <= 2*gamma2-beta-2 = %d, which is every pair the signing loop can form (z0 = LowBits(w-cs2)+ct0); "+
 		"oracle = FIPS 204 Algorithms 36, 39, 40 via MakeHint(-ct0, r+ct0) = [HighBits(r1*alpha+z0) != r1]; distinct = (function, 2^16-aligned block, hint pattern / r1), point counts in counters", m, zmax))
 	r.Set("gamma2", g2)
 	r.Set("m", m)
@@ -73,16 +76,11 @@ func Rounding(t *testing.T, im *Impl) {
 				r.Violation(key("PolyDecompose", "differs-from-Algorithm-36"), fmt.Sprintf("decompose/%d", a[i]),
 					fmt.Sprintf("%s PolyDecompose(%d) = (r1=%d, r0+q=%d), Algorithm 36 gives (r1=%d, r0=%d)", im.Name, a[i], a1[i], a0[i], r1, r0), map[string]interface{}{"r": a[i]})
 			}
-			s0, s1 := im.Decompose(a[i])
-			if int64(s1) != r1 || int64(s0) != Q+r0 {
-				r.Violation(key("decompose", "differs-from-Algorithm-36"), fmt.Sprintf("decompose/%d", a[i]),
-					fmt.Sprintf("%s decompose(%d) = (r1=%d, r0+q=%d), Algorithm 36 gives (r1=%d, r0=%d)", im.Name, a[i], s1, s0, r1, r0), map[string]interface{}{"r": a[i]})
-			}
 			if r1 == 0 && r0 < 0 && a[i] > Q/2 {
 				r.Count("decompose_corner_points", 1)
 			}
 		}
-		r.Eval(1 + N)
+		r.Eval(1)
 		if lo&0xffff == 0 {
 			r.Distinct("decompose", lo>>16)
 		}
@@ -91,8 +89,6 @@ func Rounding(t *testing.T, im *Impl) {
 	r.RequireCounter("decompose_corner_points", int64(g2))
 
 	// UseHint
-	var scalarBad, scalarMin atomic.Int64
-	scalarMin.Store(2 * Q)
 	chunks(Q, func(lo int) {
 		if !inReplay(lo) {
 			return
@@ -127,35 +123,11 @@ func Rounding(t *testing.T, im *Impl) {
 			}
 			r.Eval(1)
 		}
-		for i := range a {
-			for h := uint32(0); h < 2; h++ {
-				want := ref.UseHint(g2, int64(h), int64(a[i]))
-				if got := im.UseHint(a[i], h); int64(got) != want {
-					// The scalar helper is not called by Verify (PolyUseHint is); kept under its own key.
-					scalarBad.Add(1)
-					for {
-						cur, v := scalarMin.Load(), int64(a[i])*2+int64(h)
-						if v >= cur || scalarMin.CompareAndSwap(cur, v) {
-							break
-						}
-					}
-				}
-			}
-		}
-		r.Eval(2 * N)
 		if lo&0xffff == 0 {
 			r.Distinct("usehint", lo>>16)
 		}
 	})
 	r.Count("points_UseHint", 2*Q)
-	r.Count("scalar_useHint_mismatching_points", int(scalarBad.Load()))
-	if v := scalarMin.Load(); v < 2*Q {
-		x, h := v/2, v%2
-		got, want := im.UseHint(uint32(x), uint32(h)), ref.UseHint(g2, h, x)
-		r.Violation(key("useHint-scalar", fmt.Sprintf("differs-from-Algorithm-40|h=%d", h)), fmt.Sprintf("usehint/%d/%d", x, h),
-			fmt.Sprintf("%s scalar useHint(r=%d, h=%d) = %d, Algorithm 40 gives %d; %d of the 2q points differ (unexported helper: Verify goes through PolyUseHint)", im.Name, x, h, got, want, scalarBad.Load()),
-			map[string]interface{}{"r": x, "h": h})
-	}
 
 	// MakeHint on the reachable (r1, z0) set
 	width := 2*zmax + 1
@@ -184,17 +156,13 @@ func Rounding(t *testing.T, im *Impl) {
 						fmt.Sprintf("%s PolyMakeHint(z0=%d, r1=%d) = %d, but HighBits(r1*alpha+z0) = %d so FIPS 204 MakeHint gives %d", im.Name, z0[i], r1, h[i], ref.HighBits(g2, int64(r1)*int64(2*g2)+int64(z0[i])), want),
 						map[string]interface{}{"z0": z0[i], "r1": r1})
 				}
-				if got := im.MakeHint(z0[i], uint32(r1)); got != want {
-					r.Violation(key("makeHint", "differs-from-Algorithm-39"), fmt.Sprintf("makehint/%d/%d", z0[i], r1),
-						fmt.Sprintf("%s makeHint(z0=%d, r1=%d) = %d, FIPS 204 MakeHint gives %d", im.Name, z0[i], r1, got, want), map[string]interface{}{"z0": z0[i], "r1": r1})
-				}
 			}
 			if pop != sum && r.NumViolations() == 0 {
 				r.Violation(key("PolyMakeHint", "popcount"), fmt.Sprintf("makehint/%d/%d", z0[0], r1),
 					fmt.Sprintf("%s PolyMakeHint returned weight %d for a hint polynomial of weight %d", im.Name, pop, sum), nil)
 			}
 			r.Count("makehint_ones", int(sum))
-			r.Eval(1 + N)
+			r.Eval(1)
 			if lo&0xffff == 0 {
 				r.Distinct("makehint", r1, lo>>16)
 			}
@@ -204,4 +172,149 @@ func Rounding(t *testing.T, im *Impl) {
 	r.RequireCounter("makehint_ones", 1)
 	r.Sample(map[string]interface{}{"fn": "decompose", "r": Q - 1, "want": "r1=0, r0=-1 (corner r - r0 = q-1)"})
 	r.Sample(map[string]interface{}{"fn": "makeHint", "z0": Q - g2, "r1": 0, "want": 0, "note": "z0 = -gamma2 with r1 = 0 is the corner where no carry happens"})
+}
+
+func scalarStart(t *testing.T, unit, name string) (*verifmc.Run, *ref.Params) {
+	r := verifmc.Start(t, "C04", unit+"-"+name)
+	p := ref.ByName(name)
+	if p == nil {
+		t.Fatalf("harness: unknown parameter set %q", name)
+	}
+	r.Set("parameter_set", name)
+	return r, p
+}
+
+// ScalarDecompose sweeps the unexported scalar decompose(a) over [0,q) against Algorithm 36.
+func ScalarDecompose(t *testing.T, name string, decompose func(a uint32) (a0plusQ, a1 uint32)) {
+	r, p := scalarStart(t, "scalar-decompose", name)
+	defer r.Finish()
+	r.Rule("unexported scalar decompose on every r in [0,q); oracle = Algorithm 36; distinct = 2^16-aligned block, point count in counters")
+	g2 := p.Gamma2
+	chunks(Q, func(lo int) {
+		for i := 0; i < N && lo+i < Q; i++ {
+			a := uint32(lo + i)
+			r1, r0 := ref.Decompose(g2, int64(a))
+			s0, s1 := decompose(a)
+			if int64(s1) != r1 || int64(s0) != Q+r0 {
+				r.Violation("C04|"+name+"|decompose|differs-from-Algorithm-36", fmt.Sprintf("decompose/%d", a),
+					fmt.Sprintf("%s decompose(%d) = (r1=%d, r0+q=%d), Algorithm 36 gives (r1=%d, r0=%d)", name, a, s1, s0, r1, r0), map[string]interface{}{"r": a})
+			}
+		}
+		r.Eval(N)
+		if lo&0xffff == 0 {
+			r.Distinct("decompose", lo>>16)
+		}
+	})
+	r.Count("points_decompose", Q)
+	r.Sample(map[string]interface{}{"fn": "decompose", "r": Q - 1, "want": "r1=0, r0=-1"})
+}
+
+// ScalarUseHint sweeps the unexported scalar useHint(r, h) over [0,q) x {0,1} against Algorithm 40.
+// Sign and Verify do not call it (they go through PolyUseHint).
+func ScalarUseHint(t *testing.T, name string, useHint func(rp, hint uint32) uint32) {
+	r, p := scalarStart(t, "scalar-usehint", name)
+	defer r.Finish()
+	r.Rule("unexported scalar useHint on every (r,h) in [0,q) x {0,1}; oracle = Algorithm 40; distinct = 2^16-aligned block; the smallest differing point is reported")
+	g2 := p.Gamma2
+	var bad, min atomic.Int64
+	min.Store(2 * Q)
+	chunks(Q, func(lo int) {
+		for i := 0; i < N && lo+i < Q; i++ {
+			a := uint32(lo + i)
+			for h := uint32(0); h < 2; h++ {
+				if got := useHint(a, h); int64(got) != ref.UseHint(g2, int64(h), int64(a)) {
+					bad.Add(1)
+					for {
+						cur, v := min.Load(), int64(a)*2+int64(h)
+						if v >= cur || min.CompareAndSwap(cur, v) {
+							break
+						}
+					}
+				}
+			}
+		}
+		r.Eval(2 * N)
+		if lo&0xffff == 0 {
+			r.Distinct("usehint", lo>>16)
+		}
+	})
+	r.Count("points_UseHint", 2*Q)
+	r.Count("scalar_useHint_mismatching_points", int(bad.Load()))
+	if v := min.Load(); v < 2*Q {
+		x, h := v/2, v%2
+		got, want := useHint(uint32(x), uint32(h)), ref.UseHint(g2, h, x)
+		r.Violation("C04|"+name+"|useHint-scalar|"+fmt.Sprintf("differs-from-Algorithm-40|h=%d", h), fmt.Sprintf("usehint/%d/%d", x, h),
+			fmt.Sprintf("%s scalar useHint(r=%d, h=%d) = %d, Algorithm 40 gives %d; %d of the 2q points differ (unexported helper: Verify goes through PolyUseHint)", name, x, h, got, want, bad.Load()),
+			map[string]interface{}{"r": x, "h": h})
+	}
+	r.Sample(map[string]interface{}{"fn": "useHint", "r": 0, "h": 1, "want": (Q-1)/(2*g2) - 1})
+}
+
+// ScalarMakeHint sweeps the unexported scalar makeHint(z0, r1) over every pair the signing loop can form.
+func ScalarMakeHint(t *testing.T, name string, makeHint func(z0, r1 uint32) uint32) {
+	r, p := scalarStart(t, "scalar-makehint", name)
+	defer r.Finish()
+	g2 := p.Gamma2
+	m := (Q - 1) / (2 * g2)
+	zmax := 2*g2 - p.Beta() - 2
+	r.Rule(fmt.Sprintf("unexported scalar makeHint on every (r1, z0), r1 in [0,%d), |z0| <= 2*gamma2-beta-2 = %d; oracle = [HighBits(r1*alpha+z0) != r1] (Algorithm 39 as used by Sign); distinct = (r1, 2^16-aligned block)", m, zmax))
+	width := 2*zmax + 1
+	for r1 := 0; r1 < m; r1++ {
+		r1 := r1
+		chunks(width, func(lo int) {
+			ones := 0
+			for i := 0; i < N && lo+i < width; i++ {
+				z0 := uint32(ref.Mod(int64(lo + i - zmax)))
+				want := uint32(0)
+				if ref.HighBits(g2, int64(r1)*int64(2*g2)+int64(z0)) != int64(r1) {
+					want = 1
+				}
+				ones += int(want)
+				if got := makeHint(z0, uint32(r1)); got != want {
+					r.Violation("C04|"+name+"|makeHint|differs-from-Algorithm-39", fmt.Sprintf("makehint/%d/%d", z0, r1),
+						fmt.Sprintf("%s makeHint(z0=%d, r1=%d) = %d, FIPS 204 MakeHint gives %d", name, z0, r1, got, want), map[string]interface{}{"z0": z0, "r1": r1})
+				}
+			}
+			r.Count("makehint_ones", ones)
+			r.Eval(N)
+			if lo&0xffff == 0 {
+				r.Distinct("makehint", r1, lo>>16)
+			}
+		})
+	}
+	r.Count("points_MakeHint", width*m)
+	r.RequireCounter("makehint_ones", 1)
+	r.Sample(map[string]interface{}{"fn": "makeHint", "z0": Q - g2, "r1": 0, "want": 0})
+}
+
+// Chunks64 runs f(lo) for every 256-aligned chunk start lo in [0, n) in parallel (shared by the
+// sweeps of the common dilithium package).
+func Chunks64(n uint64, f func(lo uint64)) {
+	cs := int((n + 255) / 256)
+	const per = 4096
+	groups := (cs + per - 1) / per
+	verifmc.ParallelFor(groups, func(g int) {
+		for c := g * per; c < (g+1)*per && c < cs; c++ {
+			f(uint64(c) * 256)
+		}
+	})
+}
+
+// ReplayChunk parses a case id "<name>/<x>" and returns the 256-aligned chunk of x (ok=false when not replaying).
+func ReplayChunk(r *verifmc.Run) (lo uint64, ok bool) {
+	if !r.Replaying() {
+		return 0, false
+	}
+	s := []byte(r.ReplayCase())
+	for i := range s {
+		if s[i] == '/' {
+			s[i] = ' '
+		}
+	}
+	var name string
+	var x uint64
+	if n, _ := fmt.Sscanf(string(s), "%s %d", &name, &x); n == 2 {
+		return x &^ 255, true
+	}
+	return 0, false
 }
